@@ -137,6 +137,7 @@ class Sym:
         # hook: further outcomes of a call the evaluator does not enter (a rule may say: this callee can also throw, leaving
         # such and such state behind); receives a private copy of the state, returns the states of the extra outcomes
         self.opaque_outcomes = None
+        self.growth_may_fail = False    # emplace_* of a standard container can throw std::bad_alloc before it has any effect
         self.apply_functors = False     # std::for_each(first, last, f): evaluate one arbitrary application of f
         self.summarise_recursion = True
         self._loop_cache = {}
@@ -1832,10 +1833,16 @@ class Sym:
                 if T in self.F.rec:
                     targs = callee.get('targs') or []
                     cargs = args[1:] if name == 'emplace_after' else args
+                    failed = []
+                    if self.growth_may_fail:
+                        # the allocation of the new element can fail before anything is constructed or linked
+                        s0 = st.fork()
+                        s0.throw = 'std::bad_alloc'
+                        failed = [(s0, None)]
                     outs = self.emplace(T, targs, cargs, st, recv, name)
                     if name == 'emplace_after':
-                        return [(s, ('iter', o)) for s, o in outs]
-                    return outs
+                        return failed + [(s, ('iter', o)) for s, o in outs]
+                    return failed + outs
             if name in ('front', 'back') and recv in st.last_emplaced:
                 return [(st, st.last_emplaced[recv])]
             if name == 'operator*' and recv is not None and recv[0] == 'iter':
